@@ -254,6 +254,7 @@ Next ==
                     \* answers the same when repeated (and as it did earlier in this state)
                     \cup (IF e.op.k = "query" /\ o.dig # PrevDig(tid, l) THEN {"query-changed"} ELSE {})
                     \cup (IF e.op.k = "query" /\ e.qsame = 0 THEN {"query-unrepeatable"} ELSE {})
+                    \cup (IF e.qsame = 2 THEN {"stutter.query"} ELSE {})
      IN
      IF ~ok THEN
         /\ (IF sf \cup stutter = {} THEN TRUE ELSE PrintT(<<"REJECT", Traces[tid].id, l, sf \cup stutter, "late">>))
